@@ -290,7 +290,7 @@ inline const std::vector<std::string>& allFeatures() {
         "lre", "message", "modes", "sort2", "comment-pi", "exslt-set", "exslt-math", "exslt-str", "genid", "lang", "sysprop", "param", "ifbool",
         "union", "preds", "valnum", "apply-imports", "text-nodes", "ns-axis", "doctype-node", "attr-nodes", "number-value", "bigfmt", "xalan-ext", "docfn", "avt-ns", "extfn", "paramuse", "gate", "num-gate", "sortlang", "num-value", "lazyvar", "manyrtf", "deeprec", "padsupp", "top-nodes", "doe", "sort-gate", "bignum-alpha",
         "num-punct", "num-exotic", "ext-evaluate", "rtf-key", "key-prefixed", "key-variant",
-        "nsalias", "withparam", "fmtnum-pat", "doc2", "unparsed-entity", "nsfix", "numconv", "keynodeset", "randexpr", "manydf", "axes-matrix", "num-groupsep"
+        "nsalias", "withparam", "fmtnum-pat", "doc2", "unparsed-entity", "nsfix", "numconv", "keynodeset", "randexpr", "manydf", "axes-matrix", "num-groupsep", "sort-manylang"
     };
     return f;
 }
@@ -412,6 +412,8 @@ struct SSGen {
             perNode += "<xsl:if test=\"count(preceding::*) mod 3 = 1 or not(ancestor::*)\">" + o("axes-matrix", body) + "</xsl:if>"; }
         // grouping attributes computed at run time; a separator of two characters (at @v = 7) is an error raised inside xsl:number
         if (on("num-groupsep")) perNode += o("num-groupsep", "<xsl:number value=\"(count(preceding::*) + 1) * 98765432101\" grouping-separator=\"{substring(',,', 1, 1 + number(@v = 7))}\" grouping-size=\"{1 + count(*) mod 4}\"/>|<xsl:number value=\"(count(preceding::*) + 1) * 987654321\" grouping-separator=\"'\" grouping-size=\"3\"/>|<xsl:number value=\"count(preceding::*) * 1234567 + 123456789012\" grouping-separator=\".\" grouping-size=\"2\" format=\"01\"/>");
+        // more sort languages in one transformation than the collator cache holds (10): the language comes from the node
+        if (on("sort-manylang")) perNode += "<o f=\"sort-manylang\" n=\"{@id}\"><xsl:for-each select=\"*\"><xsl:sort select=\"@k\" lang=\"{substring('dafrenesitnlsvfiplptcshuroelbgtr', 1 + 2 * (count(preceding::*) mod 16), 2)}\" case-order=\"upper-first\"/><xsl:value-of select=\"@id\"/>,</xsl:for-each></o>";
         // many result tree fragments alive at the same time (arena blocks of the fragment allocators hold 10)
         if (on("manyrtf")) { std::string vars, uses; for (int i = 0; i < 13; ++i) { std::string n = "mr" + std::to_string(i); vars += "<xsl:variable name=\"" + n + "\"><r" + std::to_string(i) + "><xsl:value-of select=\"@id\"/></r" + std::to_string(i) + ">t" + std::to_string(i) + "</xsl:variable>"; uses += "<xsl:value-of select=\"string-length($" + n + ")\"/>,"; }
             perNode += "<xsl:if test=\"count(preceding::*) mod 4 = 0\">" + vars + "<o f=\"manyrtf\" n=\"{@id}\">" + uses + "<xsl:copy-of select=\"$mr12\"/></o></xsl:if>"; }
